@@ -76,8 +76,24 @@ func c18(r *core.Run) {
 	r.Rule("V2", "envelopes: {result,resource,error}, {model,collection,query} and {get,call} have the same JSON member names in the service's response structs and the client package's parse structs", 3)
 	r.Rule("V3", "decoders own their bytes: no UnmarshalJSON method of the library keeps (a slice or byte-slice conversion of) its input parameter in the receiver - the json.Unmarshaler contract lets the caller reuse the buffer, after which a retained alias changes the value's JSON and its equality", 3)
 	r.Rule("V4", "value classes are mutually exclusive: in the store's value parser every assignment of an object class (reference, delete action, data / primitive-in-data) happens on a path where exactly one of the members rid, action, data is known to be present and the other two are known to be absent - an object mixing them is invalid, not silently classified by whichever member is tested first", 3)
+	r.Rule("V5", "a published response reaches the client's parser (shared with C19.U1): the inbox SendRequest subscribes has room for a message and nothing but the deferred release ends or limits the interest (no AutoUnsubscribe / Drain / early Unsubscribe): a service may publish a pre-response before the response, and a subscription limited to one message delivers the pre-response only - the response is then reported as system.timeout instead of what the handler supplied", 2)
 	r.Rule("B1", "buffer layout: each make([]byte,n) buffer in Ref.MarshalJSON, SoftRef.MarshalJSON and MarshalDataValue is exactly filled for every input length", 3)
 	r.Rule("B2", "escaping comes from the encoder: the only variable-length segment copied into those buffers is the first result of json.Marshal", 3)
+	if sr := p.Func("resprot.SendRequest"); sr != nil {
+		var sub ssa.CallInstruction
+		for _, c := range core.Calls(sr) {
+			if c.Common().IsInvoke() && c.Common().Method.Name() == "ChanSubscribe" {
+				sub = c
+			}
+		}
+		if sub != nil {
+			c19InboxOpen(r, "V5", sr, sub)
+		} else {
+			r.Unres("V5", "resprot.SendRequest", "no ChanSubscribe")
+		}
+	} else {
+		r.Unres("V5", "resprot.SendRequest", "missing")
+	}
 
 	consts := stringConsts(p, "")
 	// ---- V1 --------------------------------------------------------------
